@@ -74,6 +74,8 @@ NameTable == <<
   [p |-> "Grp",      g |-> "Grp",      s |-> "grp"],
   [p |-> "Grp2",     g |-> "Grp2",     s |-> "grp2"],
   [p |-> "lower_grp", g |-> "LowerGrp", s |-> "lower_grp"],
+  \* an upper-camel oneof group name with an initialism (gogo keeps it, a case converter would not)
+  [p |-> "TLSMode",  g |-> "TLSMode",  s |-> "t_l_s_mode"],
   [p |-> "Root",     g |-> "Root",     s |-> "root"],
   [p |-> "Other",    g |-> "Other",    s |-> "other"],
   [p |-> "Third",    g |-> "Third",    s |-> "third"],
@@ -94,7 +96,7 @@ Snake(p) == IF p \in PoolNames THEN NameTable[NameRow(p)].s ELSE p
 GoNameOrder == << "AB", "Alpha", "Bad", "Bar", "BranchA", "BranchB", "BranchC", "BranchD", "BranchE", "Cust", "Custs",
   "Dict", "Dur", "Durs", "Empty", "Extra", "Fa", "Fb", "Fc", "Fd", "Fe", "Ff", "Fg", "Fh", "Fi", "Fj", "Fk", "Fl", "Flag", "Flt", "Fm", "Fn", "Fo", "Foo", "FooBar", "Foobar", "Grp", "Grp2", "Inner", "Items", "Key", "Kind",
   "Leaf", "LowerGrp", "LowerNum", "MaxTTL", "Mid", "Nothing", "Num", "Other", "Outer", "Poison", "Raw", "Root", "Str",
-  "Sub", "Sub2", "Subs", "Tags", "Third", "Value", "When", "Whens", "XYZ", "Zed", "active" >>
+  "Sub", "Sub2", "Subs", "TLSMode", "Tags", "Third", "Value", "When", "Whens", "XYZ", "Zed", "active" >>
 
 Rank(g) == IF \E i \in DOMAIN GoNameOrder : GoNameOrder[i] = g
            THEN CHOOSE i \in DOMAIN GoNameOrder : GoNameOrder[i] = g
